@@ -5,6 +5,7 @@
 //!   domsim shrink FILE OUT
 //!   domsim show   --prop C12 --seed 1 --run 17        (print the generated history)
 
+mod cli;
 mod gen;
 mod history;
 mod known;
@@ -449,6 +450,18 @@ fn main() {
         Some("replay") => cmd_replay(&args[2..]),
         Some("shrink") => cmd_shrink(&args[2..]),
         Some("show") => cmd_show(&args[2..]),
+        Some("gen-cli") => {
+            let a = &args[2..];
+            let seed: u64 = arg(a, "--seed").and_then(|v| v.parse().ok()).unwrap_or(1);
+            let from: u64 = arg(a, "--from").and_then(|v| v.parse().ok()).unwrap_or(0);
+            let count: u64 = arg(a, "--count").and_then(|v| v.parse().ok()).unwrap_or(10);
+            cli::cmd_gen(seed, from, count);
+            0
+        }
+        Some("canon-batch") => {
+            cli::cmd_canon_batch();
+            0
+        }
         _ => {
             eprintln!("usage: domsim run|replay|shrink|show ...");
             2
